@@ -156,7 +156,10 @@ def run(res):
                 "policy-chain-validated ahead of warn *, warn policy-chain-validated ahead of error policy-*, error policy-chain-* "
                 "ahead of unrelated / broader warn rules} (the first matching rule decides: the model's warn flag is what the filter "
                 "does to the tag, the shadowed filters must behave exactly like the default one), deep reorgs allowed or not, tip / previous filter header zeroed, tip bits at, "
-                "/2, /4, /8 of the parent, 0-2 real channel monitors; 3-12 requests from {valid, streamed in 1-3 chunks, wrong "
+                "/2, /4, /8 of the parent, and in 1 of 5 cases a start right at a retarget (height k*2016-1 with the tip's target 2^5..2^10 "
+                "below the chain maximum, or height k*2016 with the parent that far below and the tip eased / tightened by 2..16 against "
+                "it: restored trackers are not re-validated) where half of the adds are first-of-period blocks with targets x2, x4, x4+1ulp, "
+                "x8, x16, /2, /4, /4-1ulp, /8, around /4 of the previous one, 0-2 real channel monitors; 3-12 requests from {valid, streamed in 1-3 chunks, wrong "
                 "prev, bad PoW, 9 other-bits variants (x/2..x*8, around x/4), proof for another block, proof hiding a spend, "
                 "attestation for another previous filter header / height, bad signature, no attestation, mixed filter headers, "
                 "full-block proof, external proof without stream, incomplete stream, stream of another block} x {add, remove} "
